@@ -183,6 +183,8 @@ SCENARIOS = [
     {"pubs": [["c.x"], ["c.y"], ["c.x"]], "subs": ["c.*"], "pre": []},     # 3 publishers, prefix wildcard
     {"pubs": [["a", "b"], ["b", "a"]], "subs": ["a", "*"], "pre": []},     # 2 subscribers, overlapping patterns
     {"pubs": [["a"], ["a"], ["a"]], "subs": [], "pre": []},                # 3-way creation race
+    {"pubs": [["a", "a"]], "subs": ["a"], "pre": []},                      # exact-name subscriber racing the FIRST publish to its channel
+    {"pubs": [["a", "b"]], "subs": ["*"], "pre": []},                      # wildcard subscriber scanning while channels are being created
 ]
 
 
@@ -212,8 +214,8 @@ def check(tier: str) -> int:
     seed = core.seed()
     L = 10 if tier == "quick" else 13
     jobs: List[Tuple[Dict[str, Any], Any]] = []
-    for scn in (SCENARIOS[0], SCENARIOS[5]):
-        nthreads = len(scn["pubs"])
+    for scn in (SCENARIOS[0], SCENARIOS[5], SCENARIOS[6], SCENARIOS[7]):
+        nthreads = len(scn["pubs"]) + len(scn["subs"])
         for bits in itertools.product(range(nthreads), repeat=L if nthreads == 2 else (6 if tier == "quick" else 8)):
             jobs.append((scn, ("prefix", bits)))
     nrand = 250 if tier == "quick" else 6000
